@@ -208,3 +208,26 @@ def contract_viols(events):
 def monitor_errors(events):
     return [(e.get('where'), e.get('err')) for e in events
             if e.get('k') == 'monitor.error']
+
+
+def judge_nested(events, V, C):
+    """Runs of the runner started by a test of the world (action
+    nested_run): the inner run must come to its own verdict, must not raise,
+    and must leave the interpreter-global state as it found it (that state
+    is the *outer* run's: its gc settings, its trace function, its
+    traceback functions ...)."""
+    for e in events:
+        if e.get('k') != 'nested.run':
+            continue
+        C('nested_runs')
+        if e.get('raised') is not None:
+            V('nested-run-raised', 'nested-run-raised', raised=e['raised'],
+              inner_argv=e.get('argv'))
+        elif bool(e.get('failed')) != bool(e.get('want_failed')):
+            V('nested-run-verdict-differs-from-facts', 'nested-run-verdict',
+              failed=e.get('failed'), want=e.get('want_failed'),
+              inner_argv=e.get('argv'), ran=e.get('ran_line'))
+        if e.get('state_diff'):
+            V('global-state-not-restored',
+              'nested-state-not-restored-' + '+'.join(e['state_diff']),
+              diff=e.get('diff_detail'), inner_argv=e.get('argv'))
